@@ -417,6 +417,41 @@ example : (chain (throttle 32) onChange).outs
     [⟨0, .num 16⟩, ⟨8, .num 99⟩, ⟨32, .num 17⟩, ⟨64, .num 48⟩]
     = [.deliver (.num 16), .skip, .skip, .deliver (.num 48)] := by decide
 
+/-! ### several filter objects around the same callback -/
+
+theorem multiRun_independent (m : Machine) (k : Nat) (ics : List ICall) :
+    ∀ s : Nat → m.σ,
+      ((multiRun m s ics).zip ics).filterMap (fun p => if p.2.inst = k then some p.1 else none) =
+        m.run (s k) ((ics.filter (·.inst == k)).map (·.call)) := by
+  induction ics with
+  | nil => intro s; rfl
+  | cons ic r ih =>
+    intro s
+    simp only [multiRun, List.zip_cons_cons, List.filterMap_cons, List.filter_cons]
+    by_cases e : ic.inst = k
+    · have eb : (ic.inst == k) = true := by simpa using e
+      subst e
+      simp only [if_true, eb, List.map_cons]
+      rw [ih]
+      simp [Machine.run]
+    · have eb : (ic.inst == k) = false := by simpa using e
+      simp only [e, if_false, eb, Bool.false_eq_true]
+      rw [ih]
+      have : k ≠ ic.inst := fun x => e x.symm
+      simp [this]
+
+/-- **independent instances**: when the same factory expression is evaluated several times around
+the same callback (one logger on two events, two identical chains) every resulting filter object
+filters its OWN call sequence exactly as a fresh filter would — what the other objects were
+called with makes no difference, however the calls are interleaved -/
+theorem instances_independent (m : Machine) (k : Nat) (ics : List ICall) :
+    ((multiOuts m ics).zip ics).filterMap (fun p => if p.2.inst = k then some p.1 else none) =
+      m.outs ((ics.filter (·.inst == k)).map (·.call)) :=
+  multiRun_independent m k ics _
+
+example : multiOuts onChange [⟨0, ⟨0, .num 16⟩⟩, ⟨1, ⟨0, .num 16⟩⟩, ⟨0, ⟨1, .num 16⟩⟩, ⟨1, ⟨1, .num 48⟩⟩]
+    = [.deliver (.num 16), .deliver (.num 16), .skip, .deliver (.num 48)] := by decide
+
 /-! ### the judge -/
 
 theorem deltaTotal_outs (cs : List Call) : deltaTotal cs (delta.outs cs) = true := by
